@@ -55,3 +55,4 @@ CFG = {'level': 'exploration',
  'assumptions': ['the clause-by-clause transcription of the doc comments in ref/refpath is correct',
                  'path.Match, unicode.IsLetter and ref/refsemver are correct',
                  'Windows reserved names are the 22 names CON PRN AUX NUL COM1-9 LPT1-9']}
+CFG['level_text'] += ' Non-ASCII runes are also drawn from the edges of every range of the Unicode letter tables and from pairs that agree in their low 16 bits.'
